@@ -1463,12 +1463,16 @@ impl Machine {
                         "JmpTable instruction requires non-empty jump_tables"
                     );
                     let table = &fn_proto.jump_tables[table_idx as usize];
-                    let idx = (val - table.min) as usize;
+                    // A scrutinee below `min`, or so far from it that the difference does not fit
+                    // (a saturated cast of +-infinity), is out of range like any other value
+                    // without a case of its own.
+                    let idx = val
+                        .checked_sub(table.min)
+                        .and_then(|d| usize::try_from(d).ok());
                     // Last element of offsets is the default for out-of-range values
                     let default_idx = table.offsets.len() - 1;
-                    increment = table
-                        .offsets
-                        .get(idx)
+                    increment = idx
+                        .and_then(|idx| table.offsets.get(idx))
                         .copied()
                         .unwrap_or(table.offsets[default_idx]);
                 }
